@@ -205,6 +205,12 @@ func (g *gen) enumerate() []Case {
 			addFn(e)
 		}
 	}
+	for _, x := range fnBoolPaths {
+		addFn(p(x))
+		for _, e := range []Expr{bin("&&", p("t"), p(x)), bin("||", p(x), p("off")), bin("==", p(x), lb("true")), {K: "not", A: []Expr{p(x)}}, {K: "tern", A: []Expr{p(x), fs("Y"), fs("N")}}, bin("&&", p(x), bin(">", p("max"), li("2")))} {
+			addFn(e)
+		}
+	}
 	addFn(bin("+", p("len"), p("string")))
 	addFn(bin("==", p("title"), p("type")))
 	addFn(bin("+", bin("+", p("title"), p("default")), p("type")))
